@@ -3,5 +3,21 @@ pub mod b;
 pub mod c;
 pub mod c03;
 pub mod c15;
+pub mod c17;
+pub mod c18;
 pub mod c19;
+pub mod d;
 pub mod hostile;
+pub mod sess;
+pub mod transcript;
+
+/// HashMap-order seam (hook H4): AMF0 object properties are written in name order permuted by a
+/// private PRNG expanded from one drawn sub-seed (0 = name order).
+pub fn install_amf_order(sub_seed: u64) {
+    if sub_seed == 0 {
+        rml_amf0::verif_hooks::set_order_hook(Some(Box::new(|_| 0)));
+        return;
+    }
+    let mut rng = crate::choice::Rng::new(sub_seed ^ 0xA3F0);
+    rml_amf0::verif_hooks::set_order_hook(Some(Box::new(move |n| rng.below(n as u64) as usize)));
+}
